@@ -16,7 +16,23 @@ use std::time::{Duration, Instant};
 const KNOWN_WORDS: &[&str] = &["isready", "ucinewgame", "position", "go", "setoption", "quit", "uci"];
 
 pub fn garbage_line(rng: &mut Rng) -> String {
-    let line = match rng.below(11) {
+    let line = match rng.below(13) {
+        11 => {
+            // NUL bytes and lone carriage returns inside an otherwise harmless line
+            let mut hex = String::from("RAWHEX:");
+            let n = 1 + rng.below(10) as usize;
+            for i in 0..n {
+                let b: u8 = if i == 0 { *rng.pick(&[b'w', 0x00, b'\r']) } else { *rng.pick(&[0x00u8, b'\r', b'a', b' ', 0x00, b'\t']) };
+                hex.push_str(&format!("{:02x}", b));
+            }
+            // a line whose only visible word would be a command is not what is meant here
+            return hex;
+        }
+        12 => {
+            // a very long line (up to a megabyte)
+            let n = if rng.chance(1, 4) { 1_000_000 } else { 5_000 + rng.below(60_000) as usize };
+            "y".repeat(n)
+        }
         10 => {
             // bytes that are not valid UTF-8 (marked, sent raw by the script runner)
             let n = if rng.chance(1, 3) { 20 + rng.below(200) as usize } else { 1 + rng.below(12) as usize };
@@ -229,7 +245,7 @@ fn check_eof(bin: &PathBuf, rng: &mut Rng, roots: &[History], acc: &mut Acc, sid
             return;
         }
     };
-    let point = rng.below(5);
+    let point = rng.below(6);
     let mut pending_ms = 0u64;
     let mut desc = String::new();
     match point {
@@ -238,6 +254,14 @@ fn check_eof(bin: &PathBuf, rng: &mut Rng, roots: &[History], acc: &mut Acc, sid
             eng.send("uci");
             let _ = eng.wait_for(|l| l == "uciok", WATCHDOG);
             desc = "right after the handshake".into();
+        }
+        5 => {
+            // the stream ends in the middle of a line (no final newline)
+            eng.send("uci");
+            let _ = eng.wait_for(|l| l == "uciok", WATCHDOG);
+            let tail: &[u8] = *rng.pick(&[&b"isready"[..], &b"xyz"[..], &b"position startpos"[..], &b"isre"[..], &b" "[..], &b"\r"[..]]);
+            eng.send_raw(tail);
+            desc = format!("after an unterminated final line {:?}", String::from_utf8_lossy(tail));
         }
         2 | 3 => {
             eng.send("uci");
@@ -301,7 +325,7 @@ fn check_eof(bin: &PathBuf, rng: &mut Rng, roots: &[History], acc: &mut Acc, sid
 
 pub fn run(tier: Tier, seed: u64) -> i32 {
     let mut run = Run::new("C17", tier, seed, "exploration");
-    run.rule = "evaluation = one observation on a session of the real binary: (a) an isready probe after unknown lines, (b) the bestmove sequence of a script of well-formed commands (position + zero-slice go chains with unknown go tokens, ucinewgame, isready) with unknown/garbage lines inserted at random points compared with the same script without them, and with surplus blanks/tabs/trailing CR in the well-formed commands, (c) no 'panicked' on stderr and no exit, (d) quit ends the process within 2 s (solo-confirmed), (b') the same script with its unknown lines written without waiting for any reply (one write / per line / pieces that cut lines in two) and ended by quit or end of input: same answers in the same order, the process gone within 2 s of the last answer and not spinning, (e) closing stdin before uci / after the handshake / mid-session / right after a timed go ends the process within slice + 2 s and it does not burn CPU meanwhile (process CPU time vs wall time over 300 ms). Unknown lines: empty, blanks/tabs, unknown words, random printable ASCII, Unicode, BOM, comment-like, 3000-character lines, bytes that are not valid UTF-8; never starting with a command word. Non-trivial = every script / EOF session; distinct by seed index".into();
+    run.rule = "evaluation = one observation on a session of the real binary: (a) an isready probe after unknown lines, (b) the bestmove sequence of a script of well-formed commands (position + zero-slice go chains with unknown go tokens, ucinewgame, isready) with unknown/garbage lines inserted at random points compared with the same script without them, and with surplus blanks/tabs/trailing CR in the well-formed commands, (c) no 'panicked' on stderr and no exit, (d) quit ends the process within 2 s (solo-confirmed), (b') the same script with its unknown lines written without waiting for any reply (one write / per line / pieces that cut lines in two) and ended by quit or end of input: same answers in the same order, the process gone within 2 s of the last answer and not spinning, (e) closing stdin before uci / after the handshake / mid-session / right after a timed go / in the middle of a line (no final newline) ends the process within slice + 2 s and it does not burn CPU meanwhile (process CPU time vs wall time over 300 ms). Unknown lines: empty, blanks/tabs, unknown words, random printable ASCII, Unicode, BOM, comment-like, 3000-character lines, lines of up to a megabyte, NUL bytes and lone carriage returns, bytes that are not valid UTF-8; never starting with a command word. Non-trivial = every script / EOF session; distinct by seed index".into();
     run.assumptions = vec![
         "garbage lines include byte sequences that are not valid UTF-8 (a line is whatever ends with a newline)".into(),
         "lines that begin with a known command word but are malformed are not 'unknown input' and are excluded".into(),
